@@ -93,9 +93,11 @@ fn tls_cfgs(tier: Tier) -> Vec<Cfg> {
     v
 }
 
-/// configurations that get the second deviation level (thorough)
+/// configurations that get the second deviation level (thorough): one byte in each direction (every
+/// program step moves data), both programs, every back-end / version / flavour, the poll-style
+/// transport and the default-size adapter
 fn level2(cfg: &Cfg) -> bool {
-    matches!((cfg.c2s, cfg.s2c), (0, 0) | (1, 1) | (100, 100)) || (cfg.mode == 0 && (cfg.c2s, cfg.s2c) == (20000, 1))
+    (cfg.c2s, cfg.s2c) == (1, 1) && cfg.layer != Layer::CompatSmall
 }
 
 struct TlsCtx<'a> {
@@ -198,7 +200,7 @@ fn run_tls(rep: &Report, col: &Collector, tier: Tier) -> serde_json::Value {
         col,
         mat: &mat,
         bound,
-        deadline: tier.pick(40.0, 420.0),
+        deadline: tier.pick(40.0, 450.0),
         capped: AtomicBool::new(false),
         unreached: AtomicU64::new(0),
     };
@@ -247,7 +249,7 @@ fn run_tls(rep: &Report, col: &Collector, tier: Tier) -> serde_json::Value {
     json!({
         "configurations": cfgs.len(),
         "deviation_bound": bound,
-        "two_deviation_level_for": "payload pairs (0,0) (1,1) (100,100) in both modes and (20000,1) in mode 0 (thorough only)",
+        "two_deviation_level_for": "thorough only: payload pair (1,1), both programs, every back-end/version/flavour, layers fut and compat",
         "choice_points_total_default_runs": points_total,
         "choice_points_max_per_run": points_max,
         "one_deviation_runs": l1,
